@@ -10,6 +10,7 @@ use crate::tape::{fnv_str, sample_tapes, Tape};
 use crate::world::exec::{payload, ExecCfg, Executor};
 use crate::world::inputs::{assignment_input, InputGen};
 use heck::{ToSnakeCase, ToUpperCamelCase};
+use quote::ToTokens;
 use serde_json::{json, Value};
 
 fn interesting_text(doc: &str) -> bool {
@@ -94,7 +95,8 @@ fn describe_tokens(tokens: &str) -> Result<(Vec<(String, String, String)>, Vec<S
 
 fn selection_campaign(report: &mut Report, n: usize) {
     let scratch = Scratch::new("c05");
-    let cfg = CaseCfg { trivia: true, ..CaseCfg::default() };
+    let mut cfg = CaseCfg { trivia: true, ..CaseCfg::default() };
+    cfg.gen.names.style_percent = 80; // many operation names that normalization changes
     let mut stats = GenStats::default();
     let tapes = sample_tapes(report.seed, 0xC05E, n, 3072);
     struct Meta {
@@ -229,6 +231,114 @@ fn selection_campaign(report: &mut Report, n: usize) {
     }
 }
 
+/// Two operations whose names coincide after normalization (`FetchName` / `fetch_name`): whichever
+/// one the struct selects, OPERATION_NAME, Variables and ResponseData must all come from it.
+fn collision_campaign(report: &mut Report, n: usize) {
+    use crate::world::query::{render_document, Definition, QueryStyle, Selection};
+    let scratch = Scratch::new("c05x");
+    let cfg = CaseCfg { trivia: false, ..CaseCfg::default() };
+    let mut stats = GenStats::default();
+    let tapes = sample_tapes(report.seed, 0xC05C, n, 3072);
+    let mut jobs = Vec::new();
+    let mut metas = Vec::new();
+    for tp in &tapes {
+        let mut t = Tape::new(tp);
+        let Some(b) = build_base(&mut t, &cfg, &mut stats) else { continue };
+        let mut doc = b.world.doc.clone();
+        let op_idx: Vec<usize> = doc.defs.iter().enumerate().filter(|(_, d)| matches!(d, Definition::Op(_))).map(|(i, _)| i).collect();
+        if op_idx.len() < 2 {
+            continue;
+        }
+        let name0 = match &doc.defs[op_idx[0]] {
+            Definition::Op(o) => o.name.clone().unwrap(),
+            _ => unreachable!(),
+        };
+        let camel = name0.to_upper_camel_case();
+        let alts = [name0.to_snake_case(), { let mut c = camel.clone(); let f = c.remove(0); format!("{}{}", f.to_lowercase(), c) }, camel.clone()];
+        let Some(alt) = alts.iter().find(|a| **a != name0 && a.to_upper_camel_case() == camel) else { continue };
+        if let Definition::Op(o) = &mut doc.defs[op_idx[1]] {
+            o.name = Some(alt.clone());
+        }
+        let mut st = Tape::new(&tp[tp.len() / 2..]);
+        if st.chance(50) {
+            doc.defs.swap(op_idx[0], op_idx[1]);
+        }
+        let text = render_document(&doc, &b.world.schema, &QueryStyle { trivia: None });
+        let sp = scratch.file(&b.case.schema_text, &b.case.schema_ext);
+        let struct_name = if st.chance(70) { camel.clone() } else { alt.clone() };
+        let opts = crate::world::options::Opts { derive_mode: true, normalization_rust: true, operation_name: Some(struct_name.clone()), ..Default::default() };
+        jobs.push(Job { schema_path: sp, query: QuerySrc::Text(text.clone()), opts, cwd: None });
+        // per operation: (name, variable names, root keys or None when the root selection has spreads)
+        let facts: Vec<(String, Vec<String>, Option<Vec<String>>)> = doc
+            .operations()
+            .map(|o| {
+                let mut vars: Vec<String> = o.vars.iter().map(|v| v.name.clone()).collect();
+                vars.sort();
+                let plain = o.sel.iter().all(|s| matches!(s, Selection::Field(_) | Selection::Typename));
+                let mut keys: Vec<String> = o.sel.iter().filter_map(|s| if let Selection::Field(f) = s { Some(f.key().to_string()) } else { None }).collect();
+                keys.sort();
+                (o.name.clone().unwrap(), vars, if plain { Some(keys) } else { None })
+            })
+            .collect();
+        metas.push((tp.clone(), b.case.schema_text.clone(), text, struct_name, facts));
+    }
+    let outs = Pool::default().run(&jobs);
+    for (o, (tape, schema, text, struct_name, facts)) in outs.iter().zip(&metas) {
+        report.evaluations += 1;
+        report.feature("selection:colliding-normalized-names");
+        report.nontrivial.insert(fnv_str(&[schema, text, struct_name]));
+        let Outcome::Ok(tokens) = o else { continue }; // refusing an ambiguous document is fine
+        let problem = (|| -> Option<String> {
+            let file: syn::File = syn::parse_str(tokens).ok()?;
+            let mods: Vec<&syn::ItemMod> = file.items.iter().filter_map(|i| if let syn::Item::Mod(m) = i { Some(m) } else { None }).collect();
+            if mods.len() != 1 {
+                return Some(format!("{} modules generated for one struct", mods.len()));
+            }
+            let items = &mods[0].content.as_ref()?.1;
+            let mut opn = String::new();
+            let mut vars: Option<Vec<String>> = None;
+            let mut keys: Option<Vec<String>> = None;
+            for it in items {
+                match it {
+                    syn::Item::Const(c) if c.ident == "OPERATION_NAME" => {
+                        if let syn::Expr::Lit(syn::ExprLit { lit: syn::Lit::Str(s), .. }) = &*c.expr {
+                            opn = s.value();
+                        }
+                    }
+                    syn::Item::Struct(s) if s.ident == "Variables" => {
+                        let mut v: Vec<String> = s.fields.iter().map(super::c14::wire_name).collect();
+                        v.sort();
+                        vars = Some(v);
+                    }
+                    syn::Item::Struct(s) if s.ident == "ResponseData" => {
+                        let mut v: Vec<String> = s.fields.iter().filter(|f| !f.attrs.iter().any(|a| a.to_token_stream().to_string().contains("flatten"))).map(super::c14::wire_name).collect();
+                        v.sort();
+                        keys = Some(v);
+                    }
+                    _ => {}
+                }
+            }
+            let Some((_, want_vars, want_keys)) = facts.iter().find(|(n, _, _)| n == &opn) else {
+                return Some(format!("OPERATION_NAME {:?} is not an operation of the document", opn));
+            };
+            if vars.as_ref() != Some(want_vars) {
+                return Some(format!("OPERATION_NAME is {:?} but Variables has the members {:?}; that operation declares {:?}", opn, vars, want_vars));
+            }
+            if let (Some(k), Some(w)) = (&keys, want_keys) {
+                if k != w {
+                    return Some(format!("OPERATION_NAME is {:?} but ResponseData has the members {:?}; that operation selects {:?}", opn, k, w));
+                }
+            }
+            None
+        })();
+        if let Some(p) = problem {
+            let summary = format!("operation selection [two operations that normalize to one name, struct {}]: {}", struct_name, p);
+            let replay = json!({"engine": "e2", "tape_hex": crate::tape::hex(tape), "schema": schema, "document": text, "mode": "derive-colliding", "name": struct_name, "normalization_rust": true, "facts": facts, "observed": o.short()});
+            report.failure(None, &format!("colliding:{}", crate::campaign::dedup_text(&p)), &summary, || replay);
+        }
+    }
+}
+
 fn replay_selection(report: &mut Report, v: &Value) {
     let scratch = Scratch::new("c05r");
     let sp = scratch.file(v["schema"].as_str().unwrap_or(""), if v["schema"].as_str().unwrap_or("").trim_start().starts_with('{') { "json" } else { "graphql" });
@@ -269,6 +379,7 @@ pub fn run(report: &mut Report, replay: Option<&Value>) {
     super::replay_corpus(report, &|r, v| if v["engine"] == "e2" { replay_selection(r, v) } else { replay_e1(r, v) });
     let (n_programs, rounds, n_sel) = if report.thorough() { (250, 8, 100_000) } else { (160, 1, 5_000) };
     selection_campaign(report, n_sel);
+    collision_campaign(report, n_sel / 2);
     let mut stats = GenStats::default();
     let mut cfg = CaseCfg::default();
     cfg.gen.max_ops = 4;
